@@ -104,9 +104,9 @@ def deRoot (c : Ctx) (ty : Ty) : Ctx × String :=
 structure Thread where
   ctx : Ctx := {}
   handles : Array Handle := #[]              -- protocol numbering: order of first exposure
-  lastAlloc : Option Nat := none             -- destination of the last accepted string allocation
+  lastAlloc : Option (Nat × Nat) := none     -- destination and length of the last accepted string allocation
   logArea : Option Plan := none              -- this thread's return area for log plans
-  lastIntern : Option Nat := none
+  lastIntern : Option (Nat × Nat) := none    -- destination and length of the last intern request
   cache : List (Bytes × Nat) := []           -- the api crate's thread-local id cache
   deriving Inhabited
 
@@ -307,12 +307,13 @@ def step (w : Nat) (t : Thread) : Op → Thread × String
        ({ t with ctx := { t.ctx with writer := wr } }, wstatus r)
      | .alloc n =>
        let (wr, r, off) := t.ctx.writer.step (.strAlloc n)
-       ({ t with ctx := { t.ctx with writer := wr }, lastAlloc := off },
+       ({ t with ctx := { t.ctx with writer := wr }, lastAlloc := off.map (fun o => (o, n)) },
         s!"{r} {if off.isSome then "dst" else "null"}")
      | .copy bs =>
        (match t.lastAlloc with
         | none => (t, "no-dst")
-        | some off =>
+        | some (off, n) =>
+          if bs.size > n then (t, "copy-too-long") else
           ({ t with ctx := { t.ctx with writer := t.ctx.writer.copyAt off bs }, lastAlloc := none }, "ok"))
      | .istr id =>
        (match t.ctx.interner.get? id with
@@ -333,7 +334,7 @@ def step (w : Nat) (t : Thread) : Op → Thread × String
         | some d => s!"doc {showDoc false d}"
         | none => "not-a-document")
   | .log len seed =>
-    let msg := msgBytes len seed
+    let msg := (msgBytes len seed).toList
     let (l', p) := Logs.append LOG_CAPACITY t.ctx.logs len
     ({ t with ctx := { t.ctx with logs := Logs.applyPlan l' msg p }, logArea := some p }, "ok")
   | .logreq n =>
@@ -349,7 +350,7 @@ def step (w : Nat) (t : Thread) : Op → Thread × String
        let shown := s!"{p.src} {p.dst1} {p.len1} {d2} {p.len2}"
        if p.src + p.len1 + p.len2 > len then (t, s!"copied {shown} REFUSED-UNSAFE")
        else
-         ({ t with ctx := { t.ctx with logs := Logs.applyPlan t.ctx.logs (msgBytes len seed) p } },
+         ({ t with ctx := { t.ctx with logs := Logs.applyPlan t.ctx.logs (msgBytes len seed).toList p } },
           s!"copied {shown}"))
   | .logsq =>
     let (o1, l1, o2, l2) := Logs.readPtrs LOG_CAPACITY t.ctx.logs
@@ -360,11 +361,12 @@ def step (w : Nat) (t : Thread) : Op → Thread × String
     ({ t with ctx := { t.ctx with interner := s' } }, s!"id {id}")
   | .internreq n =>
     let (s', id, off) := t.ctx.interner.preallocate n
-    ({ t with ctx := { t.ctx with interner := s' }, lastIntern := some off }, s!"id {id}")
+    ({ t with ctx := { t.ctx with interner := s' }, lastIntern := some (off, n) }, s!"id {id}")
   | .interncopy bs =>
     (match t.lastIntern with
      | none => (t, "no-dst")
-     | some off =>
+     | some (off, n) =>
+       if bs.size > n then (t, "copy-too-long") else
        ({ t with ctx := { t.ctx with interner := t.ctx.interner.copyAt off bs }, lastIntern := none }, "ok"))
   | .cached bs =>
     (match t.cache.find? (fun p => p.1 == bs) with
